@@ -48,7 +48,7 @@ func checkHash(raw []byte) string {
 
 func (Checks) Check(t *explore.Transition) ([]V, bool) {
 	r := t.LastTx()
-	if r == nil || t.Parent == nil || t.Parent.Final() == nil || t.Cur.Final() == nil || t.Cur.Fault != nil {
+	if r == nil || t.Parent == nil || t.Parent.Final() == nil || t.Cur.Last() == nil {
 		return nil, false
 	}
 	inf := Info(r)
@@ -59,13 +59,37 @@ func (Checks) Check(t *explore.Transition) ([]V, bool) {
 	if !ok {
 		return nil, false
 	}
-	par, cur := t.Parent.Final(), t.Cur.Final()
+	par := t.Parent.Final()
 	height := uint64(t.Cur.Last().Height)
 	c := inf.Check
 	var out []V
 	bad := func(rule, text string) {
 		out = append(out, V{Signature: "check|" + rule, Detail: fmt.Sprintf("tx %q at height %d: %s", r.T.Name, height, text)})
 	}
+	// an accepted redemption is paid from what the issuer holds before it (judged on the state
+	// before the transaction, so that it is seen even when the block later fails to commit)
+	if r.Resp.Code == 0 && t.Parent.Fault == nil {
+		have := func(coin types.CoinID) *big.Int {
+			return obs.Num(par.Flat[fmt.Sprintf("acct/%s/bal/%d", inf.Payer.String(), uint64(coin))])
+		}
+		fee := new(big.Int)
+		if v, ok := tagOf(r, "tx.commission_amount"); ok {
+			fee = obs.Num(v)
+		}
+		need := new(big.Int).Set(c.Value)
+		if c.GasCoin == c.Coin {
+			need.Add(need, fee)
+		} else if have(c.GasCoin).Cmp(fee) < 0 {
+			bad("accepted-without-issuer-funds", fmt.Sprintf("the issuer holds %s of gas coin %d, the fee is %s", have(c.GasCoin), c.GasCoin, fee))
+		}
+		if have(c.Coin).Cmp(need) < 0 {
+			bad("accepted-without-issuer-funds", fmt.Sprintf("the issuer holds %s of coin %d, value + fee is %s", have(c.Coin), c.Coin, need))
+		}
+	}
+	if t.Cur.Final() == nil || t.Cur.Fault != nil {
+		return out, len(out) > 0
+	}
+	cur := t.Cur.Final()
 	// which used-check entries appeared
 	var added []string
 	for k := range cur.Flat {
